@@ -116,9 +116,12 @@ class Spec:
             return False                  # an infinite duration never elapses
         if self.fake:
             el = self.clock - o.start
-            if el > d + SLACK:
+            # time::seconds(double) truncates to whole microseconds: 2 us of slack; the time::duration overload is
+            # handed whole nanoseconds: exact ("before" / "after"; at elapsed == duration the property is silent)
+            slack = 0 if getattr(o, "exact_ns", False) else SLACK
+            if el > d + slack:
                 return True
-            if el <= d - SLACK:
+            if el <= d - slack and el < d:
                 return False
             return None
         el = self.R - o.startR
@@ -245,7 +248,8 @@ class Spec:
             # does start + duration leave the clock's 64-bit nanosecond range?  (finding F195)
             over = dn is not None and (dn in (float("inf"), -float("inf")) or
                                        not (-I63 <= FAKE_BASE + self.clock + dn < I63))
-            return Obj("timed", dur_ns=dn, start=self.clock, startR=self.R, period=pns, seen_true=None, overflowing=over)
+            return Obj("timed", dur_ns=dn, start=self.clock, startR=self.R, period=pns, seen_true=None, overflowing=over,
+                       exact_ns=(k == "timedns"))
         raise AssertionError(k)
 
     def step(self, line, out):
